@@ -7,6 +7,8 @@
  * The instruction is placed at CODE+0x800 in a page filled with int3; an exit stub is written at every address in stubs[]
  * (fall-through and branch targets): it stores its own address into `marker` and jumps back.  A fault (SIGSEGV, SIGILL,
  * SIGTRAP, SIGFPE, SIGBUS, or SIGVTALRM after 200 ms of CPU time) sets marker = 0xFFFF0000 | signal.
+ * flags bit1: the instruction runs at LOW+0x800 (0x8800) instead of CODE+0x800 and stubs[] must lie in the LOW page; if that page cannot be
+ * mapped (vm.mmap_min_addr) such a record reports marker = 0xFFFF00FF.
  * data[] is the window DATA+0x600 .. DATA+0xA00 of the data page (the rest of the page is zero).
  */
 typedef unsigned int u32;
@@ -16,6 +18,7 @@ typedef unsigned char u8;
 #define COMM 0x28000000u
 #define DATA 0x30000000u
 #define ALT  0x38000000u
+#define LOW  0x00008000u   /* second code page below 64 KiB: a 66-prefixed near branch truncates EIP to 16 bits, which stays inside this page */
 #define WIN_OFF 0x600
 #define WIN_LEN 1024
 
@@ -115,6 +118,7 @@ void _start(void) {
     static u8 out[32 + 4 + 4 + WIN_LEN + 512];
     if (do_mmap(CODE, 4096, 7) != CODE || do_mmap(COMM, 8192, 3) != COMM || do_mmap(DATA, 4096, 3) != DATA || do_mmap(ALT, 65536, 3) != ALT)
         sys3(1, 2, 0, 0);
+    int low_ok = do_mmap(LOW, 4096, 7) == LOW;
     struct kstack ss; ss.sp = (void *)ALT; ss.flags = 0; ss.size = 65536;
     sys3(186, (u32)&ss, 0, 0);
     struct ksigaction sa; sa.handler = (void *)fault_handler; sa.flags = 0x08000000u | 0x40000000u; sa.restorer = 0; sa.mask[0] = 0; sa.mask[1] = 0;
@@ -135,19 +139,26 @@ void _start(void) {
         u32 eflags = *(u32 *)(rec + 96);
         u8 *data = rec + 100;
         u8 *fx = rec + 100 + WIN_LEN;
-        fill((u8 *)CODE, 0xCC, 4096);
-        copy((u8 *)(CODE + 0x800), code, ncode);
+        u32 base = (flags & 2) ? LOW : CODE;
+        if ((flags & 2) && !low_ok) {
+            fill(out, 0, 40 + WIN_LEN + 512);
+            ((u32 *)out)[9] = 0xFFFF00FFu;
+            writen(out, 40 + WIN_LEN + ((flags & 1) ? 512 : 0));
+            continue;
+        }
+        fill((u8 *)base, 0xCC, 4096);
+        copy((u8 *)(base + 0x800), code, ncode);
         if (nstubs > 8) nstubs = 8;
         for (u32 i = 0; i < nstubs; i++) {
             u32 a = stubs[i];
-            if (a < CODE || a > CODE + 4096 - 16) continue;
+            if (a < base || a > base + 4096 - 16) continue;
             u8 *p = (u8 *)a;
             p[0] = 0xC7; p[1] = 0x05; *(u32 *)(p + 2) = COMM + 0x54; *(u32 *)(p + 6) = a;
             p[10] = 0xFF; p[11] = 0x25; *(u32 *)(p + 12) = COMM + 4;
         }
         fill((u8 *)DATA, 0, 4096);
         copy((u8 *)(DATA + WIN_OFF), data, WIN_LEN);
-        comm[2] = CODE + 0x800;
+        comm[2] = base + 0x800;
         comm[3] = eflags;
         for (int i = 0; i < 8; i++) comm[4 + i] = regs[i];
         comm[0x54 / 4] = 0;
